@@ -108,6 +108,67 @@ func RandKSAT(r *rand.Rand, n, m, k int) [][]int {
 	return res
 }
 
+// ChainCNF: parse-time unit propagation stress. A unit literal, implications that fan out from it
+// (so that units are discovered over several passes over the clause list), and a few longer
+// clauses made of negated forced literals plus free positive literals, which only become unit or
+// falsified once the last forced literal is known. The clause order is either shuffled or the
+// worst case for a pass-based propagation: consequences listed before their sources.
+func ChainCNF(r *rand.Rand, n int) [][]int {
+	perm := r.Perm(n)
+	k := 2 + r.Intn(n-1) // number of forced literals
+	if k > n-1 {
+		k = n - 1
+	}
+	forced := make([]int, k)
+	for i := range forced {
+		forced[i] = perm[i] + 1
+		if r.Intn(2) == 0 {
+			forced[i] = -forced[i]
+		}
+	}
+	var impl [][]int
+	for i := 1; i < k; i++ {
+		from := forced[r.Intn(i)] // implied by an earlier forced literal (fan-out, not only a path)
+		impl = append(impl, []int{-from, forced[i]})
+	}
+	var decided [][]int
+	for j := 0; j < 1+r.Intn(2); j++ {
+		var c []int
+		for _, x := range r.Perm(k) {
+			if len(c) == 2+r.Intn(2) {
+				break
+			}
+			c = append(c, -forced[x])
+		}
+		if r.Intn(4) > 0 { // a free variable, positive: the clause becomes unit once the forced ones are known
+			c = append(c, perm[k+r.Intn(n-k)]+1)
+		}
+		decided = append(decided, c)
+	}
+	var side [][]int
+	for j := 0; j < r.Intn(4); j++ {
+		side = append(side, RandClause(r, n, 2+r.Intn(2), true))
+	}
+	unit := [][]int{{forced[0]}}
+	if r.Intn(2) == 0 {
+		all := append(append(append(unit, impl...), decided...), side...)
+		return Shuffle(r, all)
+	}
+	// consequences first: implications in reverse order of derivation, then the unit, then the rest
+	var res [][]int
+	for i := len(impl) - 1; i >= 0; i-- {
+		res = append(res, impl[i])
+	}
+	if r.Intn(2) == 0 {
+		res = append(res, unit...)
+		res = append(res, decided...)
+	} else {
+		res = append(res, decided...)
+		res = append(res, unit...)
+	}
+	return append(res, side...)
+}
+
 func ClauseCtors(clauses [][]int) []M {
 	res := make([]M, len(clauses))
 	for i, c := range clauses {
